@@ -37,6 +37,12 @@ var c14Conds = []struct{ name, cond string }{
 	{"json-index-range", "J.a[7] == 0"},
 	{"json-index-range-const-left", `"x" == J.a[7]`},
 	{"json-missing-member", "J.zz.n == 0"},
+	// maps and slices that were never made, a JSON null
+	{"nil-map-read", "F.MK[1] == 0"},
+	{"nil-slice-index", "F.SArr[0] == \"\""},
+	{"nil-map-len-healthy", "F.MK.Len() == 0 && F.I < 2"},
+	{"json-null-member", "J.nul == 0"},
+	{"json-null-descent", "J.nul.x == 0"},
 }
 
 var c14Acts = []struct {
@@ -61,6 +67,16 @@ var c14Acts = []struct {
 	{"act-unwritable-target-same-value", []string{"F.I = F.I + 1", `F.MSV["a"].V = 10`, "F.I2 = 13"}},
 	{"act-unwritable-target-other-value", []string{"F.I = F.I + 1", `F.MSV["a"].V = 11`, "F.I2 = 14"}},
 	{"act-json-index-range-rhs", []string{"F.I = F.I + 1", "J.n = J.a[7]", "F.I2 = 11"}},
+	// compound assignments whose arithmetic fails, on every kind of target
+	{"act-compound-fails-map-entry", []string{"F.I = F.I + 1", `F.M["a"] -= "ten"`, "F.I2 = 18"}},
+	{"act-compound-fails-json-member", []string{"F.I = F.I + 1", `J.n *= "x"`, "F.I2 = 19"}},
+	{"act-compound-fails-field", []string{"F.I = F.I + 1", `F.I8 /= "x"`, "F.I2 = 20"}},
+	{"act-compound-fails-slice-element", []string{"F.I = F.I + 1", `F.Arr[0] -= "x"`, "F.I2 = 21"}},
+	{"act-compound-nil-operand-map-entry", []string{"F.I = F.I + 1", `F.M["a"] += F.P.V`, "F.I2 = 22"}},
+	{"act-compound-nil-operand-json-member", []string{"F.I = F.I + 1", `J.n -= F.P.V`, "F.I2 = 23"}},
+	{"act-nil-map-write", []string{"F.I = F.I + 1", "F.MK[1] = 2", "F.I2 = 15"}},
+	{"act-nil-slice-write", []string{"F.I = F.I + 1", `F.SArr[0] = "x"`, "F.I2 = 16"}},
+	{"act-json-null-descent-write", []string{"F.I = F.I + 1", "J.nul.x = 1", "F.I2 = 17"}},
 	{"act-json-index-range-rhs-to-field", []string{"F.I = F.I + 1", "F.In = J.a[7]", "F.I2 = 12"}},
 }
 
@@ -88,7 +104,7 @@ func c14World(faultAt, kind int) func() *ref.World {
 		f.H().FaultAt = faultAt
 		f.H().FaultKind = kind
 		w.Objs["F"] = f
-		w.JSON["J"] = map[string]interface{}{"n": 1.0, "a": []interface{}{1.0, 2.0}}
+		w.JSON["J"] = map[string]interface{}{"n": 1.0, "a": []interface{}{1.0, 2.0}, "nul": nil}
 		return w
 	}
 }
